@@ -3,7 +3,7 @@ import json
 
 CLAIMED = {
     'C13': dict(
-        text='Theorems over the model of floatToGoString (string surgery on repr(d)): the rewritten text denotes the same decimal '
+        text='17 theorems over the model of floatToGoString (string surgery on repr(d)): the rewritten text denotes the same decimal '
              'number as repr(d) for every digit string of the shape repr produces, renderings are injective on denoted values, '
              'canonical e+XX shape with a two-digit-minimum exponent; the model is tied to /repo by differential testing of '
              'floatToGoString against the extracted model on ~40k (quick) / ~900k (thorough) doubles plus a direct round-trip '
@@ -28,8 +28,8 @@ CLAIMED = {
         technique='Coq proof over executable Gallina models + differential correspondence + direct round-trip oracle',
         ref='7/C03'),
     'C04': dict(
-        text='22 theorems on the models of the OpenMetrics exposition (model/Expo.v) and parser (model/OMParser.v), for ARBITRARY names, label names, label values, help texts and exemplar labels: L1-L3 (unescape(escape s) = s; quoted text skipped by the scanner; the label block is read back exactly, also in OpenMetrics mode and behind a quoted metric name); L4 the whole sample line - series, value, optional timestamp, optional exemplar - is read back as exactly that sample (character state machine of _parse_remaining_text, brace scans, exemplar labels); L5 HELP/TYPE/UNIT lines are read back exactly, any list of gauge families and a counter family with exemplars followed by # EOF parse back to exactly those families; refutation witnesses for the pinned defects (timestamp exponent, sample name, exemplar eligibility, quote toggle). Tie: byte-exact differential testing of the exposition against the extracted renderer and of the parser against the extracted parser, direct oracle parse(expose(r)) == collect(r) on generated registries (units, exemplars incl. ineligible ones, three timestamp forms) and parse(expose(parse(d))) == parse(d) on accepted documents.',
-        note='Partial: family-level round trip is proved for gauge and counter families; histogram, summary, info and stateset families and the second direction rest on the correspondence and the direct oracle. Hypotheses of L4/L5 are CPython facts about the number tokens (checked per case) plus what the constructors guarantee. Three known findings (int not a double, two timestamp classes at one instant, mixed-class timestamps compared through float). Trusted: as C03 plus samples.Timestamp arithmetic.',
+        text='39 theorems on the models of the OpenMetrics exposition (model/Expo.v) and parser (model/OMParser.v), for ARBITRARY names, label names, label values, help texts and exemplar labels: L1-L3 (unescape(escape s) = s; quoted text skipped by the scanner; the label block is read back exactly, also in OpenMetrics mode and behind a quoted metric name); L4 the whole sample line - series, value, optional timestamp, optional exemplar - is read back as exactly that sample (character state machine of _parse_remaining_text, brace scans, exemplar labels); L5 HELP/TYPE/UNIT lines are read back exactly and - through a general family_step lemma - documents of gauge, counter (with exemplars), summary, classic histogram (through _check_histogram), info and stateset families with pairwise non-clashing names parse back to exactly those families; refutation witnesses for the pinned defects (timestamp exponent, sample name, exemplar eligibility, quote toggle). Tie: byte-exact differential testing of the exposition against the extracted renderer and of the parser against the extracted parser, direct oracle parse(expose(r)) == collect(r) on generated registries (units, exemplars incl. ineligible ones, three timestamp forms) and parse(expose(parse(d))) == parse(d) on accepted documents.',
+        note='Partial: gaugehistogram and unknown families, timestamps on non-gauge families and the second direction rest on the correspondence and the direct oracle. Hypotheses of L4/L5 are CPython facts about the number tokens (checked per case) plus what the constructors guarantee. Four known findings (int not a double, two timestamp classes at one instant, mixed-class timestamps compared through float, Histogram with a negative first bound exposed with _count but no _sum - pinned by an existing test). Trusted: as C03 plus samples.Timestamp arithmetic.',
         technique='Coq proof over executable Gallina models + differential correspondence + direct round-trip oracle',
         ref='7/C04'),
     'C05': dict(
@@ -38,12 +38,12 @@ CLAIMED = {
         technique='Coq proof over executable Gallina models + extracted independent grammar as oracle + differential correspondence',
         ref='7/C05'),
     'C14': dict(
-        text='24 theorems: BOTH parsers are total - for every input string and every oracle the model returns families or ValueError, never another exception class and never the out-of-fuel value (termination): text_parse_total for the text parser (fresh-scan invariant), C14_om_total for the OpenMetrics parser (one theorem per reader, _check_histogram under the line-loop invariant, flush, step, fuel sufficiency of the regex loops), refutation witnesses for the pinned source (KeyError, TypeError, AttributeError, OverflowError, IndexError escapes, all repaired). Tie: outcome class and parsed families compared with the implementation on valid documents, all truncations, token-level mutations and all short strings over the special alphabet, each under a watchdog.',
+        text='28 theorems: BOTH parsers are total - for every input string and every oracle the model returns families or ValueError, never another exception class and never the out-of-fuel value (termination): text_parse_total for the text parser (fresh-scan invariant), C14_om_total for the OpenMetrics parser (one theorem per reader, _check_histogram under the line-loop invariant, flush, step, fuel sufficiency of the regex loops), refutation witnesses for the pinned source (KeyError, TypeError, AttributeError, OverflowError, IndexError escapes, all repaired). Tie: outcome class and parsed families compared with the implementation on valid documents, all truncations, token-level mutations and all short strings over the special alphabet, each under a watchdog.',
         note='One platform hypothesis in C14_om_total: a character of the regex class \\d is not str.strip() whitespace (checked over all code points at every run; shown necessary by an Example). Trusted: CPython int()/float() raise only ValueError on str (OverflowError of int/1000 is modelled), re classes answered by CPython.',
         technique='Coq proof over executable Gallina model (result monad) + differential correspondence + direct totality oracle',
         ref='7/C14'),
     'C19': dict(
-        text='21 theorems over the model of the push-gateway URL construction and of the Pushgateway-side decoder (model/Gateway.v): '
+        text='29 theorems over the model of the push-gateway URL construction and of the Pushgateway-side decoder (model/Gateway.v): '
              'UTF-8, URL-safe base64 and percent-encoding are inverted by their decoders for ALL byte strings; the URL of every job and '
              'grouping key decodes (form-style, path-style and Go-order decoders) to job followed by the sorted labels; injectivity; '
              'method/body/headers/timeout; gateway spelling normalisation. Tie: the model URL must equal the implementation URL exactly '
@@ -63,7 +63,7 @@ CLAIMED = {
         technique='Coq proof over executable Gallina model + differential correspondence (extracted OCaml) + direct property oracle',
         ref='7/C07'),
     'C08': dict(
-        text='36 theorems over the model of MultiProcessCollector.merge (model/Multiproc.v) and its declarative spec: every series equals the per-mode aggregate of its contributions in read order, no series duplicated or dropped, histogram buckets merged per parsed bound, sorted, cumulative, _count = +Inf bucket, min/max order independent for NaN-free input, mark_process_dead removes exactly the live-mode gauge files of that pid. Tie: 1-4 simulated processes (child interpreter with PROMETHEUS_MULTIPROC_DIR), all 10 gauge modes, dead pids, pid reuse; model fed the entries read from the files in the actual read order; thorough tier forks real workers. Added (C08h, model/MultiHist.v): over WORKER HISTORIES - any interleaving of worker steps on one shared directory, any mark_process_dead points and pid reuse - the files of a pid are those of the single-process run of its calls, and each counter/summary/histogram/gauge series the collector reports is the per-mode aggregate of the workers in-memory values; replayed against the real code by a multi-history stream.',
+        text='44 theorems over the model of MultiProcessCollector.merge (model/Multiproc.v) and its declarative spec: every series equals the per-mode aggregate of its contributions in read order, no series duplicated or dropped, histogram buckets merged per parsed bound, sorted, cumulative, _count = +Inf bucket, min/max order independent for NaN-free input, mark_process_dead removes exactly the live-mode gauge files of that pid. Tie: 1-4 simulated processes (child interpreter with PROMETHEUS_MULTIPROC_DIR), all 10 gauge modes, dead pids, pid reuse; model fed the entries read from the files in the actual read order; thorough tier forks real workers. Added (C08h, model/MultiHist.v): over WORKER HISTORIES - any interleaving of worker steps on one shared directory, any mark_process_dead points and pid reuse - the files of a pid are those of the single-process run of its calls, and each counter/summary/histogram/gauge series the collector reports is the per-mode aggregate of the workers in-memory values; replayed against the real code by a multi-history stream.',
         note='Trusted: float order laws as Section hypotheses (< irreflexive/transitive, totality on non-NaN), floatToGoString injective on bounds, JSON key codec, glob order observed not assumed.',
         technique='Coq proof over executable Gallina model + differential correspondence (extracted OCaml) + direct property oracle',
         ref='7/C08'),
@@ -73,17 +73,17 @@ CLAIMED = {
         technique='Coq proof over executable Gallina model + differential correspondence (extracted OCaml) + direct property oracle',
         ref='7/C09'),
     'C16': dict(
-        text='19 theorems over a call-language model of the three context managers/decorators and of Python argument binding (model/Wrappers.v): transparency (same value / same exception object) for every body and nesting, in-progress gauge balanced, exactly one non-negative observation per timed call for any clock, counter +1 iff a matching exception escapes, forwarding of every argument shape; refutation witnesses for positional-only/keyword collisions (known finding). Tie: exec-generated callables x call shapes x scripted clocks compared with the model; direct oracle compares wrapped with undecorated behaviour.',
+        text='22 theorems over a call-language model of the three context managers/decorators and of Python argument binding (model/Wrappers.v): transparency (same value / same exception object) for every body and nesting, in-progress gauge balanced, exactly one non-negative observation per timed call for any clock, counter +1 iff a matching exception escapes, forwarding of every argument shape; refutation witnesses for positional-only/keyword collisions (known finding). Tie: exec-generated callables x call shapes x scripted clocks compared with the model; direct oracle compares wrapped with undecorated behaviour.',
         note='Partial by design: exec-generated functions, __wrapped__, attribute copying, the with-statement protocol are runtime and checked by the direct oracle only. Two known findings in the vendored decorator module (posonly_kw_collision, reserved_param_name).',
         technique='Coq proof over executable Gallina model + differential correspondence (extracted OCaml) + direct property oracle',
         ref='7/C16'),
     'C17': dict(
-        text='18 theorems over the decision logic of choose_encoder, gzip_accepted, _bake_output and the three front-ends (model/Http.v): OpenMetrics iff the Accept header lists the media type (declarative spec without split/strip), gzip iff enabled and listed (ASCII case-insensitive), the three front-ends agree, WSGI OPTIONS/405 without collecting. Tie: WSGI callable, ASGI coroutine and MetricsHandler (fake socket; loop-back servers for a subset) driven on generated headers/queries and compared with the model and with each other; direct oracle = independent RFC-style tokenizer.',
+        text='27 theorems over the decision logic of choose_encoder, gzip_accepted, _bake_output and the three front-ends (model/Http.v): OpenMetrics iff the Accept header lists the media type (declarative spec without split/strip), gzip iff enabled and listed (ASCII case-insensitive), the three front-ends agree, WSGI OPTIONS/405 without collecting. Tie: WSGI callable, ASGI coroutine and MetricsHandler (fake socket; loop-back servers for a subset) driven on generated headers/queries and compared with the model and with each other; direct oracle = independent RFC-style tokenizer.',
         note='Partial by design: wsgiref, http.server, email.parser, gzip, parse_qs are trusted runtime; lower_gzip hypothesis validated over all code points each run.',
         technique='Coq proof over executable Gallina model + differential correspondence (extracted OCaml) + direct property oracle',
         ref='7/C17'),
     'C18': dict(
-        text='19 theorems over a small-step model of write_to_textfile on an abstract file system (model/Textfile.v): at every prefix of every faulted or unfaulted run the target is old or the complete new exposition; a raising call leaves target unchanged, removes the temporary file and the error reaches the caller; N writers under any schedule install complete expositions only. Tie: exposition.open/os/threading replaced by recording, faulting, turn-taking proxies; every single fault at every I/O step and collector, all interleavings of two writers, SIGKILL of real child processes.',
+        text='25 theorems over a small-step model of write_to_textfile on an abstract file system (model/Textfile.v): at every prefix of every faulted or unfaulted run the target is old or the complete new exposition; a raising call leaves target unchanged, removes the temporary file and the error reaches the caller; N writers under any schedule install complete expositions only. Tie: exposition.open/os/threading replaced by recording, faulting, turn-taking proxies; every single fault at every I/O step and collector, all interleavings of two writers, SIGKILL of real child processes.',
         note='Partial: rename(2)/os.replace atomicity is built into the model (one transition) and is the one OS fact assumed; an asynchronous KeyboardInterrupt after rename is outside the model.',
         technique='Coq proof over executable Gallina model + differential correspondence (extracted OCaml) + direct property oracle',
         ref='7/C18'),
@@ -93,22 +93,22 @@ CLAIMED = {
         technique='Coq proof over executable Gallina model + differential correspondence (extracted OCaml) + direct property oracle',
         ref='7/C01'),
     'C02': dict(
-        text="25 theorems over an interleaving semantics with the library's operation programs (model/Conc.v), for every thread count, program list and schedule: mutual exclusion, every cell equals the fold of the updates applied to it (no lost update), equal labels -> one child, deadlock freedom from the lock-rank invariant, every load reports a value the cell held, counters monotone, every callout made holding no lock; refutation witness for an unlocked increment. Tie: (1) trace conformance under a deterministic scheduler with a cooperative TracedLock and logging descriptors, replayed event by event in the extracted model; (2) bounded exploration of the implementation (<= 2 pre-emptions quick, <= 3 thorough, both back-ends) with the direct oracle; (3) final-state comparison. Added: the FINAL value of every increment-only cell (static or labelled child) equals its initial value plus the sum of the amounts in the program text when all threads have finished and none raised; every schedule of straight programs terminates within total_steps; the library's own operation programs are disciplined for any number of value objects.",
+        text="27 theorems over an interleaving semantics with the library's operation programs (model/Conc.v), for every thread count, program list and schedule: mutual exclusion, every cell equals the fold of the updates applied to it (no lost update), equal labels -> one child, deadlock freedom from the lock-rank invariant, every load reports a value the cell held, counters monotone, every callout made holding no lock; refutation witness for an unlocked increment. Tie: (1) trace conformance under a deterministic scheduler with a cooperative TracedLock and logging descriptors, replayed event by event in the extracted model; (2) bounded exploration of the implementation (<= 2 pre-emptions quick, <= 3 thorough, both back-ends) with the direct oracle; (3) final-state comparison. Added: the FINAL value of every increment-only cell (static or labelled child) equals its initial value plus the sum of the amounts in the program text when all threads have finished and none raised; every schedule of straight programs terminates within total_steps; the library's own operation programs are disciplined for any number of value objects.",
         note='Partial by design: proved for the lock-level abstraction. Trusted runtime facts: the GIL makes one bytecode and one built-in dict operation atomic; threading.Lock is a mutex; mmap slice writes not modelled below the slice; amounts are integers; the scheduler and interposition code.',
         technique='Coq proof over executable Gallina model + differential correspondence (extracted OCaml) + direct property oracle',
         ref='7/C02'),
     'C10': dict(
-        text="10 theorems over a byte-exact model of mmap_dict.py (model/MmapDict.v): for every write history the representation invariant holds and all three read paths return exactly the association list in first-write order with the last written pair bit for bit; reopen rebuilds the same handle; entries are 8-aligned and tile [8, used); capacity = isz*2^j; the doubling loop and the reader terminate. Tie: the implementation's file BYTES (first `used` bytes) and the three read paths compared with the model on write sequences over every key length mod 8, multi-byte keys, growth by several doublings, all double bit patterns, reopen anywhere.",
+        text="17 theorems over a byte-exact model of mmap_dict.py (model/MmapDict.v): for every write history the representation invariant holds and all three read paths return exactly the association list in first-write order with the last written pair bit for bit; reopen rebuilds the same handle; entries are 8-aligned and tile [8, used); capacity = isz*2^j; the doubling loop and the reader terminate. Tie: the implementation's file BYTES (first `used` bytes) and the three read paths compared with the model on write sequences over every key length mod 8, multi-byte keys, growth by several doublings, all double bit patterns, reopen anywhere.",
         note="Trusted: UTF-8 codec inverse, struct 'd' bit-exact and 'i' little-endian 32-bit; total size < 2^31.",
         technique='Coq proof over executable Gallina model + differential correspondence (extracted OCaml) + direct property oracle',
         ref='7/C10'),
     'C11': dict(
-        text="8 theorems: for every history and every cut of the writer's file-effect trace the (repaired) reader returns the state after some prefix of the completed operations, optionally with the in-flight new key at zero; reopen at any cut succeeds; no never-written key or value appears; a directory of worker files each at an arbitrary cut is readable. Tie: open/truncate/__setitem__ interposed, the file copied after each effect and read by read_all_values_from_file, a reopening MmapedDict and the collector; thorough tier SIGKILLs real forked writers.",
+        text="17 theorems: for every history and every cut of the writer's file-effect trace the (repaired) reader returns the state after some prefix of the completed operations, optionally with the in-flight new key at zero; reopen at any cut succeeds; no never-written key or value appears; a directory of worker files each at an arbitrary cut is readable. Tie: open/truncate/__setitem__ interposed, the file copied after each effect and read by read_all_values_from_file, a reopening MmapedDict and the collector; thorough tier SIGKILLs real forked writers.",
         note='Partial: one slice write is atomic in the model; that a slice assignment on a shared mapping is observed whole and that MAP_SHARED pages survive SIGKILL are runtime facts.',
         technique='Coq proof over executable Gallina model + differential correspondence (extracted OCaml) + direct property oracle',
         ref='7/C11'),
     'C15': dict(
-        text='58 theorems: for every validation rule named in the property, a violated rule makes the parse fail for ALL documents, positions and groups and arbitrary oracles: blank line, missing / repeated / non-final # EOF (and every accepted document has exactly one, last), repeated or late HELP/TYPE/UNIT, interleaved or clashing families (invariant: a clash once reached is final), unit not suffixing the name or on info/stateset, histogram groups without +Inf, bounds not increasing, counts not cumulative or not integral, _count/_gcount different from the +Inf bucket wherever it stands in the group, NaN/negative counter-like samples, info/stateset values and label, quantile range, timestamps going backwards or partly present (lifted to documents), duplicate label names, exemplar eligibility and length.',
+        text='66 theorems: for every validation rule named in the property, a violated rule makes the parse fail for ALL documents, positions and groups and arbitrary oracles: blank line, missing / repeated / non-final # EOF (and every accepted document has exactly one, last), repeated or late HELP/TYPE/UNIT, interleaved or clashing families (invariant: a clash once reached is final), unit not suffixing the name or on info/stateset, histogram groups without +Inf, bounds not increasing, counts not cumulative or not integral, _count/_gcount different from the +Inf bucket wherever it stands in the group, NaN/negative counter-like samples, info/stateset values and label, quantile range, timestamps going backwards or partly present (lifted to documents), duplicate label names, exemplar eligibility and length.',
         note='Two known findings (duplicate bucket line dropped before validation; le="nan" accepted); the later-exposure defect found while proving the count rule is repaired. Trusted: CPython float()/int()/comparison answered over the oracle pipe; re classes.',
         technique='Coq proof over executable Gallina model + differential correspondence (extracted OCaml) + direct property oracle',
         ref='7/C15'),
